@@ -3,7 +3,7 @@
    [execute c k b s] = processor.Execute of operation kind k whose builder yields b, under
    configuration c (DryRun, SkipDefaultTransaction), from state s; the log is the list of driver
    calls; the oracle [orc] is what the database answers, call by call (quantified: any answers). *)
-From Verif Require Import Base C01_Model C19_Model C19_Proofs.
+From Verif Require Import Base C01_Model C19_Model C19_Proofs C19_Tx C19_TxProofs C19_TxProofs2.
 
 (* DryRun: no statement reaches the driver; only transaction control may *)
 Theorem c19_silent : forall skip k b orc,
@@ -93,6 +93,43 @@ Theorem c19_manual_tx_silent : forall skip k b orc,
   forallb is_tx_event (r_log (manual_tx (dry_cfg skip) k b (rst0 orc))) = true.
 Proof. exact manual_tx_dry_silent. Qed.
 Print Assumptions c19_manual_tx_silent.
+
+(* user transaction scripts: db.Transaction blocks nested to any depth (the inner ones are SAVEPOINT /
+   ROLLBACK TO SAVEPOINT statements sent through the raw-exec callback), explicit SavePoint / RollbackTo
+   and operations in between, on a handle that is or is not already inside a transaction: in DryRun
+   the driver sees transaction control only - no SAVEPOINT, no statement *)
+Theorem c19_script_silent : forall skip encl steps orc,
+  forallb is_tx_event (r_log (ts (run_script (dry_cfg skip) encl steps (rst0 orc)))) = true.
+Proof. exact script_dry_silent. Qed.
+Print Assumptions c19_script_silent.
+
+(* ... and on a dry handle that is already inside a transaction (tx.Session(&Session{DryRun: true}),
+   tx.ToSQL(...)) blocks, savepoints and operations make no driver call at all *)
+Theorem c19_script_in_tx_silent : forall c steps st, c_dry c = true ->
+  r_log (ts (run_steps c true steps st)) = r_log (ts st).
+Proof. exact steps_in_tx_dry_silent. Qed.
+Print Assumptions c19_script_in_tx_silent.
+
+(* what the operations of a dry script expose, in order, is what the real run of the same script sends,
+   savepoint control apart - at any nesting depth, with failing and swallowed blocks (against a database
+   that answers every call without error; operations that build a statement without error) *)
+Theorem c19_script_same_statements : forall skip encl steps, Forall step_good steps ->
+  main_stmts (r_log (ts (run_script (real_cfg skip) encl steps (rst0 []))))
+  = tshown (run_script (dry_cfg skip) encl steps (rst0 [])).
+Proof. exact script_same_statements. Qed.
+Print Assumptions c19_script_same_statements.
+
+(* non-vacuity: a nested block in the real run sends SAVEPOINT sp1 / ROLLBACK TO SAVEPOINT sp1, the dry run BEGIN / COMMIT only *)
+Example c19_script_instance :
+  let b := mk_built "UPDATE t SET a=? WHERE id = ?" [SStr "x"; SInt 1] false false false in
+  let sc := [TBlock false false [TOp OpUpdate b; TBlock true true [TOp OpUpdate b]]] in
+  r_log (ts (run_script (real_cfg false) false sc (rst0 []))) =
+    [EBegin; EStmt false "UPDATE t SET a=? WHERE id = ?" [SStr "x"; SInt 1];
+     EStmt false "SAVEPOINT sp1" []; EStmt false "UPDATE t SET a=? WHERE id = ?" [SStr "x"; SInt 1];
+     EStmt false "ROLLBACK TO SAVEPOINT sp1" []; ECommit]
+  /\ r_log (ts (run_script (dry_cfg false) false sc (rst0 []))) = [EBegin; ECommit]
+  /\ tshown (run_script (dry_cfg false) false sc (rst0 [])) = main_stmts (r_log (ts (run_script (real_cfg false) false sc (rst0 [])))).
+Proof. vm_compute. repeat split. Qed.
 
 (* non-vacuity *)
 Example c19_instance :
